@@ -72,6 +72,15 @@ FIXED = [
      'heap-buffer-overflow in dtw_distance (IndexError in Python) for l1=l2=6, window=1, psi_2b=6', None),
     ('F30', 'C07', 'fix: n-dim distance matrix with multiprocessing passed use_ndim twice',
      'dtw_ndim.distance_matrix(series, parallel=True, use_c=False) raised TypeError (use_ndim given twice) in every worker', None),
+    ('F31', 'C17', 'fix: dp returned a 2-tuple on early exit and aborted when the second sequence is empty',
+     "needleman_wunsch('A', '') raised ValueError (2-tuple unpacked into 3)", None),
+    ('F32', 'C17', 'fix: Needleman-Wunsch border ignored the gap cost of the substitution function',
+     "needleman_wunsch('A','BAC', substitution=make_substitution_fn({}, gap=.5)) returned -0.5, optimum 0.0", None),
+    ('F33', 'C19', "fix: squash(method='gaussian') always raised ValueError", "squash(X, method='gaussian') raised ValueError for every input", None),
+    ('F34', 'C19', "fix: document the formula distance_to_similarity(method='reverse') actually computes",
+     "docstring said r - D, code computes (r - D) / r", None),
+    ('F35', 'C19', 'fix: default scale of the similarity transforms was 0 for all-zero input',
+     'distance_to_similarity(zeros) and squash(X, x0=0) returned NaN / raised ZeroDivisionError under the default scale', None),
 ]
 
 OPEN = [
